@@ -315,3 +315,22 @@ Proof.
       * intros c Hc. rewrite <- length_nreduce. apply (cand_loop_idx oracle p t (nreduce samples) c Hc).
       * repeat split; try assumption; rewrite M1; intro H; exact H.
 Qed.
+
+(* ---------- samples without coordinates / external drift ---------- *)
+Lemma nreduce_embed l : nreduce (map nembed l) = map nembed (filter nusable l).
+Proof. unfold nreduce. rewrite filter_map_comm. reflexivity. Qed.
+Lemma moving_reduce_undefined oracle p t l :
+  let K := nkept (map nembed l) in
+  let r := moving oracle p t (map nembed l) in
+  let r' := moving oracle p t (map nembed (filter nusable l)) in
+  r_ranks r = map (ren K) (r_ranks r') /\ (r_code r = 0%Z <-> r_code r' = 0%Z).
+Proof.
+  cbn zeta. rewrite <- nreduce_embed. destruct (moving_reduce oracle p t (map nembed l)) as [H1 [_ H3]]. split; assumption.
+Qed.
+Lemma cand_of_undefined oracle p t i x :
+  (forallb odef (n_coords x) && forallb odef (n_fext x) = false) -> cand_of oracle p t (i, nembed x) = None.
+Proof.
+  intro H. apply cand_of_removed. unfold nkeep. cbn [snd nembed s_active].
+  destruct (s_active (n_s x)); cbn [andb]; [|reflexivity].
+  destruct (forallb odef (n_coords x)); cbn [andb] in *; [rewrite H|]; reflexivity.
+Qed.
